@@ -17,7 +17,7 @@ FLOW = {
     "prio.pop_scheduled_reset", "send.apply_remote_settings", "send.settings_dec_stream",
     "send.poll_capacity", "send.capacity", "send.send_reset", "send.handle_error",
     "send.schedule_implicit_reset", "stream.notify_capacity", "stream.notify_send", "stream.wait_send",
-    "stream.new", "store.insert", "store.remove",
+    "stream.new", "store.insert", "store.remove", "prio.drop_promised",
 }
 COMPOSITE = {
     "prio.send_data", "prio.reserve_capacity", "prio.recv_stream_window_update",
@@ -94,9 +94,33 @@ def visits_of(node):
     return "[" + "; ".join(out) + "]"
 
 
+def dropped_promised(node):
+    """serials of promised streams whose PUSH_PROMISE is dropped inside this entry (clear_queue of the parent resets them:
+    fix cc6ac6c of /repo), with whether their send task was woken"""
+    res = []
+
+    def walk(n):
+        for k in n.kids:
+            if k.name == "prio.drop_promised":
+                res.append(k.args[0])
+            walk(k)
+    walk(node)
+    woken = set()
+
+    def walk2(n):
+        for k in n.kids:
+            if k.name == "stream.notify_send" and k.args[2] == 1 and k.args[0] in res:
+                woken.add(k.args[0])
+            walk2(k)
+    walk2(node)
+    return [(c, c in woken) for c in res]
+
+
 def observed_outs(node, extra=None):
-    """outputs observable from nested events, in order: ONotifyCap/OWake (+ OData for pop_data)."""
+    """outputs observable from nested events, in order: ONotifyCap/OWake (+ OData for pop_data).  Wake-ups of promised
+    streams that are reset because their PUSH_PROMISE is dropped belong to those streams' own labels (dropped_promised)."""
     outs = []
+    skip = {c for c, _ in dropped_promised(node)}
     if node.name == "prio.pop_data":
         outs.append("OData %d%%N %s" % (node.args[0], Z(node.args[14])))
 
@@ -104,7 +128,7 @@ def observed_outs(node, extra=None):
         for k in n.kids:
             if k.name == "stream.notify_capacity":
                 outs.append("ONotifyCap %d%%N" % k.args[0])
-            elif k.name == "stream.notify_send" and k.args[2] == 1:
+            elif k.name == "stream.notify_send" and k.args[2] == 1 and k.args[0] not in skip:
                 outs.append("OWake %d%%N" % k.args[0])
             walk(k)
     walk(node)
@@ -142,6 +166,11 @@ def labels_of_scenario(sc):
         nm = n.name
         if nm == "stream.new":
             continue
+        for child, woke in dropped_promised(n):
+            # the promised stream is reset together with the dropped PUSH_PROMISE: its queue is cleared, requested and
+            # buffered go to 0, its send task is woken - the model's send_reset on a record that holds no capacity
+            add("LSendReset %d%%N (mkObs false false false false) false false []" % child, None, None,
+                ["OWake %d%%N" % child] if woke else [], kind="LSendReset(dropped-promise)")
         if nm == "store.insert":
             live[a[0]] = a[1]
             add("LNew %d%%N %s" % (a[0], Z(a[2])))
@@ -466,6 +495,259 @@ def report_disagreements(rep, scs, failing):
             "first_diverging_label": labels[k] if k is not None and k < len(labels) else None,
             "labels_before": labels[max(0, (k or 0) - 5):(k or 0)],
             "theorems_no_longer_tied_to_code": ["C02_never_exceeds_credit", "C16_capacity_is_backed"],
+            "scenario": {"cfg": sc["cfg"], "seed": sc.get("seed"), "i": sc.get("i"), "trace": [{"op": st["op"]} for st in sc["trace"]]}},
+            no_input=True)
+
+
+# ------------------------------------------------------------------------------------------------
+# pending_capacity FIFO (coq/Model/CapQueue.v): additive projection.  The labels are the ones of
+# labels_of_scenario (unchanged); in addition every label gets the queue observed before it (rebuilt from
+# the `queue.push` / `queue.pop` events of queue code 2 = NextSendCapacity, cross-checked against the
+# statistics snapshot after every driver step) and the observations `ob` of the streams that
+# assign_connection_capacity popped.
+
+QUEUE_EVENTS = {"queue.push", "queue.pop", "queue.push_front"}
+PENDING_CAPACITY_CODE = 2           # /repo/src/verif.rs queue_code("NextSendCapacity")
+EVICTED_OBS = "(mkObs false false false false)"
+PREAMBLE_Q = "From H2V Require Import Base.Tac Base.Bytes Model.SendFlow Model.CapQueue.\nLocal Open Scope Z_scope.\n"
+
+
+def build_forest_q(trace):
+    """build_forest, with the pending_capacity queue events kept as leaf nodes"""
+    roots = []
+    stack = []
+    for st in trace:
+        for e in st.get("ev", []):
+            name, depth, args = e[0], e[1], e[2:]
+            while stack and stack[-1][0] >= depth:
+                stack.pop()
+            keep = name in FLOW or (name in QUEUE_EVENTS and args and args[0] == PENDING_CAPACITY_CODE)
+            if keep:
+                n = Node(name, depth, args, st["i"])
+                parent = None
+                for d, p in reversed(stack):
+                    if p is not None:
+                        parent = p
+                        break
+                (parent.kids if parent is not None else roots).append(n)
+                stack.append((depth, n))
+            else:
+                stack.append((depth, None))
+    return roots
+
+
+def _n_labels(n, live):
+    """how many labels labels_of_scenario emits for this root (kept in step with it; checked by a count)"""
+    nm, a = n.name, n.args
+    if nm in ("stream.new", "stream.notify_capacity"):
+        return 0
+    if nm == "store.insert":
+        live[a[0]] = a[1]
+        return 1
+    if nm == "store.remove":
+        if a[0] in live:
+            del live[a[0]]
+            return 1
+        return 0
+    if nm == "send.apply_remote_settings":
+        if a[1] < 0:
+            return 0
+        return 1 + sum(1 for k in n.kids if k.name == "send.send_reset")
+    return 1
+
+
+def qlabels_of_scenario(sc):
+    """-> (maxbuf, init, [(label string, ob string, observed queue before)], final observed queue, info)"""
+    trace = sc["trace"]
+    maxbuf, init, labels, _fin, counts = labels_of_scenario(sc)
+    plain = [x[1:x.index(", (mkE ")] for x in labels]
+    roots = build_forest_q(trace)
+    pyq = []                      # observed queue (serials)
+    ids = {}                      # serial -> stream id
+    info = {"pops": 0, "pushes": 0, "noop_pushes": 0, "evicted": 0, "requeued": 0, "clears": 0, "maxlen": 0,
+            "inconsistent": None}
+    entries = []
+    live = {}
+    li = 0
+
+    def bad(why):
+        if info["inconsistent"] is None:
+            info["inconsistent"] = why
+
+    def apply_ev(k):
+        serial, sid, mask = k.args[1], k.args[2], k.args[5]
+        ids[serial] = sid
+        if k.name == "queue.pop":
+            info["pops"] += 1
+            if not pyq or pyq[0] != serial:
+                bad("queue.pop of %d but the rebuilt queue is %r" % (serial, pyq))
+                if serial in pyq:
+                    pyq.remove(serial)
+            else:
+                pyq.pop(0)
+        elif k.name == "queue.push":
+            if mask & 2:
+                info["noop_pushes"] += 1
+                if serial not in pyq:
+                    bad("queue.push of %d with the flag set but not in the rebuilt queue" % serial)
+            else:
+                info["pushes"] += 1
+                if serial in pyq:
+                    bad("queue.push of %d with the flag clear but in the rebuilt queue" % serial)
+                else:
+                    pyq.append(serial)
+                info["maxlen"] = max(info["maxlen"], len(pyq))
+        else:
+            bad("push_front on pending_capacity")
+
+    def walk(n, ob, skip=()):
+        kids = n.kids
+        for i, k in enumerate(kids):
+            if k in skip:
+                continue
+            if k.name in QUEUE_EVENTS:
+                if k.name == "queue.pop" and n.name == "prio.assign_connection_capacity":
+                    nxt = next((x for x in kids[i + 1:] if x.name in ("queue.pop", "prio.try_assign_capacity")), None)
+                    if nxt is not None and nxt.name == "prio.try_assign_capacity" and nxt.args[0] == k.args[1]:
+                        ob.append("(%d%%N, %s)" % (k.args[1], obs(nxt.args)))
+                    else:
+                        info["evicted"] += 1
+                        ob.append("(%d%%N, %s)" % (k.args[1], EVICTED_OBS))
+                elif k.name == "queue.push" and n.name == "prio.try_assign_capacity" and not (k.args[5] & 2) \
+                        and any(x.name == "queue.pop" and x.args[1] == k.args[1] for x in popped_here):
+                    info["requeued"] += 1
+                if k.name == "queue.pop":
+                    popped_here.append(k)
+                apply_ev(k)
+            else:
+                walk(k, ob, skip)
+
+    by_step = {}
+    for n in roots:
+        by_step.setdefault(n.step, []).append(n)
+    in_clear = False
+    for st in trace:
+        for n in by_step.get(st["i"], []):
+            popped_here = []
+            if n.name in QUEUE_EVENTS:
+                # outside every hooked entry: Send::clear_queues -> clear_pending_capacity pops everything
+                if n.name != "queue.pop":
+                    bad("%s outside the send-flow entries" % n.name)
+                if not in_clear:
+                    entries.append(("QClear", None, list(pyq)))
+                    info["clears"] += 1
+                    in_clear = True
+                apply_ev(n)
+                continue
+            if in_clear and pyq:
+                bad("clear_pending_capacity left %r queued" % pyq)
+            in_clear = False
+            k = _n_labels(n, live)
+            if k == 0:
+                walk(n, [])
+                continue
+            nested = [x for x in n.kids if x.name == "send.send_reset"] if n.name == "send.apply_remote_settings" else []
+            pre = list(pyq)
+            ob = []
+            walk(n, ob, skip=nested)
+            if li < len(plain):
+                entries.append((plain[li], ob, pre))
+            li += 1
+            for x in nested:
+                pre = list(pyq)
+                ob = []
+                popped_here = []
+                walk(x, ob)
+                if li < len(plain):
+                    entries.append((plain[li], ob, pre))
+                li += 1
+        sn = st.get("snap")
+        if sn and "queues" in sn and "pending_capacity" in sn["queues"]:
+            seen = [ids.get(s) for s in pyq]
+            if seen != list(sn["queues"]["pending_capacity"]):
+                bad("step %d: queue rebuilt from the events %r (ids %r) != snapshot %r" % (st["i"], pyq, seen, sn["queues"]["pending_capacity"]))
+    if li != len(plain):
+        bad("label count: %d roots-labels vs %d labels" % (li, len(plain)))
+    return maxbuf, init, entries, list(pyq), info, counts
+
+
+def _nlist(xs):
+    return "(@nil N)" if not xs else "[" + "; ".join("%d%%N" % int(x) for x in xs) + "]"
+
+
+def coq_case_q(sc):
+    maxbuf, init, entries, fin, info, counts = qlabels_of_scenario(sc)
+    es = []
+    for lbl, ob, pre in entries:
+        ql = "QClear" if lbl == "QClear" else "(QL (%s) [%s])" % (lbl, "; ".join(ob))
+        es.append("(%s, %s)" % (ql, _nlist(pre)))
+    return "(%s, %s, [%s], %s)" % (Z(maxbuf), Z(init), ";\n    ".join(es), _nlist(fin)), info, len(entries)
+
+
+def correspond_capqueue(rep, tier, seed, profiles=("starve", "bufcap", "flow", "bp", "mixed", "reset")):
+    """lock-step of coq/Model/CapQueue.v: the model's pending_capacity queue against the observed one at every
+    label, and the visiting order it computes against the observed try_assign_capacity calls"""
+    per = 40 if tier == "quick" else 1200
+    steps = 100 if tier == "quick" else 140
+    cases, scs = [], []
+    tot = {"pops": 0, "pushes": 0, "noop_pushes": 0, "evicted": 0, "requeued": 0, "clears": 0, "maxlen": 0}
+    nontrivial = 0
+    n_incons = 0
+    for pi, prof in enumerate(profiles):
+        got, _ = gen_scenarios(seed * 6151 + 17 * pi + 3, per, steps, prof)
+        for sc in got:
+            case, info, nl = coq_case_q(sc)
+            if nl == 0:
+                continue
+            if info["inconsistent"]:
+                n_incons += 1
+                if n_incons <= 3:
+                    rep.violation("broken-correspondence", {
+                        "correspondence": "pending_capacity queue rebuilt from queue.push/queue.pop events vs statistics snapshot",
+                        "why": info["inconsistent"],
+                        "scenario": {"cfg": sc["cfg"], "seed": sc.get("seed"), "i": sc.get("i"), "trace": [{"op": st["op"]} for st in sc["trace"]]}},
+                        no_input=True)
+                continue
+            cases.append(case)
+            scs.append(sc)
+            for k in tot:
+                tot[k] = max(tot[k], info[k]) if k == "maxlen" else tot[k] + info[k]
+            if info["pops"] > 0:
+                nontrivial += 1
+    failing, err = common.coq_eval_failing("capqueue", PREAMBLE_Q, "check_capqueue", cases, shard=12)
+    if err:
+        rep.violation("broken-correspondence", {"what": "coqc failed on generated capqueue cases", "log": err[-3000:]}, no_input=True)
+    rep.correspondences.append({
+        "name": "capqueue-lockstep", "cases": len(cases), "nontrivial": nontrivial, "disagreements": len(failing),
+        "distribution": {"queue_events": tot, "profiles": list(profiles)},
+        "rule": "same scenarios as sendflow-lockstep (other seeds); the pending_capacity FIFO is carried by the model "
+                "(Model/CapQueue.v qstep) and compared at every label with the queue observed through the queue.push/queue.pop "
+                "hooks (itself cross-checked against the snapshot of the real queue after every driver step); the visiting order "
+                "of assign_connection_capacity is computed by the model from its queue and compared with the observed "
+                "try_assign_capacity calls; non-trivial = at least one stream was popped from pending_capacity"})
+    return scs, failing
+
+
+def report_disagreements_q(rep, scs, failing):
+    import re
+    for i in failing[:3]:
+        sc = scs[i]
+        case, info, nl = coq_case_q(sc)
+        rc, out = common.coq_eval_raw("capqueue_diag", PREAMBLE_Q + "Definition c := %s.\nEval vm_compute in (diag_capqueue c).\n" % case)
+        m = re.search(r"= (\d+)%N", out)
+        code = int(m.group(1)) if m else None
+        _, _, entries, fin, _, _ = qlabels_of_scenario(sc)
+        k = (code // 10 - 1) if code else None
+        ent = entries[k] if k is not None and k < len(entries) else None
+        rep.violation("broken-correspondence", {
+            "correspondence": "Model/CapQueue.v check_capqueue vs /repo pending_capacity queue events",
+            "diag_code": code,
+            "reason": {1: "queue before the label differs", 2: "computed visiting order differs from the observed try_assign_capacity calls",
+                       3: "model Stuck", 4: "model Panic", 5: "final queue differs"}.get((code or 0) % 10, "?"),
+            "first_diverging_label": {"label": ent[0], "ob": ent[1], "observed_queue_before": ent[2]} if ent else None,
+            "labels_before": [e[0] for e in entries[max(0, (k or 0) - 5):(k or 0)]],
+            "theorems_no_longer_tied_to_code": ["C16_fifo_no_overtaking", "C16_returned_capacity_reaches_waiters",
+                                                "C16_no_starvation_under_returns", "C16_fifo_refines"],
             "scenario": {"cfg": sc["cfg"], "seed": sc.get("seed"), "i": sc.get("i"), "trace": [{"op": st["op"]} for st in sc["trace"]]}},
             no_input=True)
 
